@@ -14,7 +14,8 @@ from . import core
 from .core import TranslatorError
 
 OUTPUT = "PoolGen.v"
-ITEMS = ["available_connections", "connect_must_wait", "wait_slot_found", "release_skips_key"]
+ITEMS = ["available_connections", "connect_must_wait", "wait_slot_found", "release_skips_key",
+         "wait_checks_closed", "close_clears_per_host"]
 
 F = "aiohttp/connector.py"
 
@@ -227,6 +228,53 @@ def _call_site(func: str, want_ctx: str):
     return tbl[op]
 
 
+def _self_attr(n, name):
+    return isinstance(n, ast.Attribute) and n.attr == name and isinstance(n.value, ast.Name) and n.value.id == "self"
+
+
+def _wait_checks_closed() -> bool:
+    """True iff the body of the `while True` loop of _wait_for_available_connection starts with
+    `if self._closed: raise ...` (and that is the only use of self._closed there); False iff the
+    function never looks at self._closed; anything else is outside the recognised shapes."""
+    fn = core.find_function(F, "_wait_for_available_connection", cls="BaseConnector")
+    uses = [n for n in ast.walk(fn) if _self_attr(n, "_closed")]
+    loops = [n for n in fn.body if isinstance(n, ast.While)]
+    if len(loops) != 1 or not (isinstance(loops[0].test, ast.Constant) and loops[0].test.value is True):
+        raise TranslatorError("_wait_for_available_connection: expected exactly one top-level `while True` loop")
+    if not uses:
+        return False
+    first = loops[0].body[0]
+    ok = (isinstance(first, ast.If) and _self_attr(first.test, "_closed") and not first.orelse
+          and len(first.body) == 1 and isinstance(first.body[0], ast.Raise) and len(uses) == 1)
+    if not ok:
+        raise TranslatorError("_wait_for_available_connection: self._closed is used in an unrecognised way")
+    return True
+
+
+def _close_clears_per_host() -> bool:
+    """True iff the `finally:` of _close_immediately calls self._acquired_per_host.clear();
+    False iff the function never mentions _acquired_per_host."""
+    fn = core.find_function(F, "_close_immediately", cls="BaseConnector")
+    uses = [n for n in ast.walk(fn) if _self_attr(n, "_acquired_per_host")]
+    if not uses:
+        return False
+    tries = [n for n in fn.body if isinstance(n, ast.Try)]
+    if len(tries) != 1:
+        raise TranslatorError("_close_immediately: expected one try/finally")
+    hits = [st for st in tries[0].finalbody
+            if isinstance(st, ast.Expr) and isinstance(st.value, ast.Call) and not st.value.args
+            and isinstance(st.value.func, ast.Attribute) and st.value.func.attr == "clear"
+            and _self_attr(st.value.func.value, "_acquired_per_host")]
+    if len(hits) != 1 or len(uses) != 1:
+        raise TranslatorError("_close_immediately: _acquired_per_host is used in an unrecognised way")
+    # the same finally must clear _acquired and the waiters too (the model's EClose does)
+    for nm in ("_acquired", "_conns", "_waiters"):
+        if not any(isinstance(st, ast.Expr) and isinstance(st.value, ast.Call) and isinstance(st.value.func, ast.Attribute)
+                   and st.value.func.attr == "clear" and _self_attr(st.value.func.value, nm) for st in tries[0].finalbody):
+            raise TranslatorError(f"_close_immediately: finally no longer clears self.{nm}")
+    return True
+
+
 def generate() -> str:
     out = ["Open Scope Z_scope.\n", _gen_available()]
     out.append("(* connect(): `if self._available_connections(key) <= 0: await self._wait_for_available_connection` *)\n"
@@ -235,4 +283,9 @@ def generate() -> str:
                f"Definition wait_slot_found (a : Z) : bool := {_call_site('_wait_for_available_connection', 'if')}.\n")
     out.append("(* _release_waiter(): `if self._available_connections(key) < 1: continue` *)\n"
                f"Definition release_skips_key (a : Z) : bool := {_call_site('_release_waiter', 'if')}.\n")
+    b = lambda x: "true" if x else "false"
+    out.append("(* _wait_for_available_connection(): `if self._closed: raise ClientConnectionError` at the top of the loop *)\n"
+               f"Definition wait_checks_closed : bool := {b(_wait_checks_closed())}.\n")
+    out.append("(* _close_immediately(): `self._acquired_per_host.clear()` in the finally block *)\n"
+               f"Definition close_clears_per_host : bool := {b(_close_clears_per_host())}.\n")
     return "\n".join(out)
